@@ -338,7 +338,15 @@ func (w *world) readState() (map[string]map[string]*colInfo, string, string) {
 					delete(p, "_distance")
 					delete(p, "_score")
 					delete(p, "_hybridScore")
-					ci.Points[pid] = canonJSON(p)
+					// the same id can live in two shards (an insert of an existing id that lands in another
+					// shard is accepted): keep every copy, in a canonical order
+					if prev, dup := ci.Points[pid]; dup {
+						all := append(strings.Split(prev, " || "), canonJSON(p))
+						sort.Strings(all)
+						ci.Points[pid] = strings.Join(all, " || ")
+					} else {
+						ci.Points[pid] = canonJSON(p)
+					}
 					// O5: every stored vector under an indexed path has the index dimension
 					for prop, sv := range gr.IndexSchema {
 						dim := -1
@@ -428,7 +436,8 @@ func decodeInto[T any](ctype string, body []byte) (v T, ok bool, perr string) {
 func decodeBody(ep, ctype string, body []byte) (tokens string, exotic string) {
 	render := func(v any, ok bool, perr string) (string, string) {
 		if perr != "" {
-			return "!", perr
+			// the decoder panics on these bytes: for the server that must be a refusal (4xx) as well
+			return "!", ""
 		}
 		if !ok {
 			return "!", ""
@@ -851,7 +860,16 @@ func run(seed uint64, n int, dir string, deepmp int) {
 	rn.pagingProbe()
 	rn.boundarySweep()
 	for i := 0; i < n && !rn.abort; i++ {
-		rn.iteration(i)
+		func() {
+			defer func() { // a bug of the harness must not end the run silently
+				if r := recover(); r != nil {
+					fmt.Fprintln(os.Stderr, "harness panic in iteration", i, r)
+					rn.mutCt["harness-panic"]++
+					rn.refresh()
+				}
+			}()
+			rn.iteration(i)
+		}()
 	}
 	rn.pureOps() // last: status disagreements come first in the diff
 	if deepmp > 0 {
@@ -1297,9 +1315,6 @@ func (rn *runner) iteration(i int) {
 		if !((r >= 'a' && r <= 'z') || (r >= 'A' && r <= 'Z') || (r >= '0' && r <= '9') || r == '_' || r == '-') {
 			okCid = false
 		}
-	}
-	if strings.HasPrefix(exotic, "decoder panic") {
-		rn.fail("decoder-panic:"+epName, "the request decoder panics in-process on this body: "+exotic, []string{req.line()})
 	}
 	if exotic == "" && okCid {
 		pn := planNums[plan]
